@@ -253,6 +253,34 @@ Section Sim.
     etransitivity; [exact B2|]. rewrite A2. symmetry. apply N.add_assoc.
   Qed.
 
+  (** whatever else happens, a key that went through the withdraw loop is absent afterwards *)
+  Lemma gwd_keeps_absent (st : list (K * attrs) * N) k k' : lookup k (fst st) = None -> lookup k (fst (gwd st k')) = None.
+  Proof.
+    intros H. unfold gwd. destruct (dmem eqb k' (fst st)); cbn [fst]; [|exact H].
+    rewrite lookup_ddel. destruct (eqb k k'); [reflexivity | exact H].
+  Qed.
+
+  Lemma gwd_removes (st : list (K * attrs) * N) k : lookup k (fst (gwd st k)) = None.
+  Proof.
+    unfold gwd, dmem. destruct (dget eqb k (fst st)) eqn:E; cbn [fst];
+      [|rewrite <- dget_lookup; exact E].
+    rewrite lookup_ddel. destruct (eqb_spec k k); [reflexivity | congruence].
+  Qed.
+
+  Lemma fold_gwd_keeps_absent {X} (kf : X -> K) xs : forall (st : list (K * attrs) * N) k, lookup k (fst st) = None ->
+    lookup k (fst (fold_left (fun st x => gwd st (kf x)) xs st)) = None.
+  Proof.
+    induction xs as [|x xs IH]; intros st k H; cbn [fold_left]; [exact H|].
+    apply IH, gwd_keeps_absent, H.
+  Qed.
+
+  Lemma fold_gwd_removes {X} (kf : X -> K) xs : forall (st : list (K * attrs) * N) x, In x xs ->
+    lookup (kf x) (fst (fold_left (fun st x => gwd st (kf x)) xs st)) = None.
+  Proof.
+    induction xs as [|x0 xs IH]; intros st x Hin; [destruct Hin|]. cbn [fold_left].
+    destruct Hin as [->|Hin]; [apply fold_gwd_keeps_absent, gwd_removes | apply IH, Hin].
+  Qed.
+
   (** a sequence of messages *)
   Lemma run_sim {S U} (step : S -> U -> S) (tbl : S -> list (K * attrs)) (ver : S -> N)
         (ops : U -> list (op K attrs)) :
@@ -490,6 +518,38 @@ Proof.
     (destruct (a_unreach (u_attr u)) as [m2|]; [destruct (fam_of m2) as [[]|]|]); reflexivity.
 Qed.
 
+(** MP_UNREACH_NLRI is processed whatever else the UPDATE carries (MP_REACH_NLRI of the same or of
+    another family, IPv4 NLRI, IPv4 withdrawals): every route it names is absent afterwards *)
+Lemma mp_unreach_removes (get : rib -> family -> list (rkey * attrs) * N)
+      (set : rib -> family -> list (rkey * attrs) * N -> rib) (P : family -> Prop) :
+  (forall s f r, P f -> get (set s f r) f = r) ->
+  forall f s a m15 r, P f -> a_unreach a = Some m15 -> fam_of m15 = Some f -> In r (reach_rules f m15) ->
+    lookup rkey_eqb (rule_key r) (fst (get (mp_unreach_part get set s a) f)) = None.
+Proof.
+  intros GS f s a m15 r Pf Hu Hf Hin. unfold mp_unreach_part. rewrite Hu, Hf, GS by exact Pf.
+  exact (fold_gwd_removes rkey_eqb rkey_eqb_eq rule_key (reach_rules f m15) (get s f) r Hin).
+Qed.
+
+Theorem recv_unreach_applied b f s u m15 r : f <> SrPolicy ->
+  a_unreach (u_attr u) = Some m15 -> fam_of m15 = Some f -> In r (reach_rules f m15) ->
+  lookup rkey_eqb (rule_key r) (fst (get_recv (recv_step b s u) f)) = None.
+Proof.
+  intros Hf Hu Hm Hin. unfold recv_step.
+  destruct (b && negb (is_nil (u_nlri u) && is_nil (u_withdraw u)));
+    rewrite ?rib_in_frame_mp; unfold update_receive_verion;
+    exact (mp_unreach_removes get_recv set_recv (fun f => f <> SrPolicy) get_set_recv_same
+                              f _ (u_attr u) m15 r Hf Hu Hm Hin).
+Qed.
+
+Theorem send_unreach_applied f s u m15 r :
+  a_unreach (u_attr u) = Some m15 -> fam_of m15 = Some f -> In r (reach_rules f m15) ->
+  lookup rkey_eqb (rule_key r) (fst (get_send (send_step s u) f)) = None.
+Proof.
+  intros Hu Hm Hin. unfold send_step, update_send_version.
+  exact (mp_unreach_removes get_send set_send (fun _ => True) get_set_send_same
+                            f _ (u_attr u) m15 r I Hu Hm Hin).
+Qed.
+
 (** the two directions do not touch each other's state *)
 Lemma recv_step_frame_send b s u :
   rib_out (recv_step b s u) = rib_out s /\ send_v (recv_step b s u) = send_v s /\
@@ -562,11 +622,33 @@ Proof.
   rewrite IH. apply recv_step_sr.
 Qed.
 
-(** flush *)
-Theorem empty_after_drop s :
-  rib_in (conn_lost s) = [] /\ rib_out (conn_lost s) = [] /\
-  recv_v (conn_lost s) = recv_v s /\ send_v (conn_lost s) = send_v s.
-Proof. repeat split. Qed.
+(** flush: connectionLost empties both tables whatever the `disconnected` flag says, i.e. whether
+    the peer dropped the session or yabgp closed it itself; the counters of the dead object stay *)
+Theorem empty_after_drop c :
+  rib_in (c_rib (connection_lost c)) = [] /\ rib_out (c_rib (connection_lost c)) = [] /\
+  recv_v (c_rib (connection_lost c)) = recv_v (c_rib c) /\
+  send_v (c_rib (connection_lost c)) = send_v (c_rib c) /\
+  c_disconnected (connection_lost c) = c_disconnected c.
+Proof. destruct c as [s []]; repeat split. Qed.
+
+(** closeConnection itself flushes nothing: the tables live until connectionLost *)
+Theorem close_keeps_tables c :
+  c_rib (close_connection c) = c_rib c /\ c_disconnected (close_connection c) = true.
+Proof. split; reflexivity. Qed.
+
+(** any history (received and sent UPDATEs, earlier drops and reconnections, local closes) that
+    ends with the session dropping -- by the peer (ELost) or by yabgp (EClose then ELost) --
+    leaves both tables empty, and the two kinds of drop leave the same tables and counters *)
+Theorem empty_after_any_drop b es c :
+  let remote := run b c (es ++ [ELost]) in
+  let loc := run b c (es ++ [EClose; ELost]) in
+  (rib_in (c_rib remote) = [] /\ rib_out (c_rib remote) = []) /\
+  (rib_in (c_rib loc) = [] /\ rib_out (c_rib loc) = []) /\
+  c_disconnected loc = true /\ c_rib loc = c_rib remote.
+Proof.
+  cbn zeta. unfold run. rewrite !fold_left_app. cbn [fold_left ev_step].
+  destruct (fold_left (ev_step b) es c) as [s []]; repeat split.
+Qed.
 
 Theorem new_conn_fresh : sx_rib new_conn = sx_rib rib0 /\ new_conn = rib0.
 Proof. split; reflexivity. Qed.
